@@ -151,6 +151,41 @@ class RelEval:
         except AnalysisError:
             return False
 
+    # -- integers (levels and distances) --------------------------------------
+    def resolve_name(self, node: ast.Name) -> Optional[ast.AST]:
+        return None
+
+    def int_term(self, node: ast.AST) -> int:
+        if isinstance(node, ast.Constant) and isinstance(node.value, int) and not isinstance(node.value, bool):
+            return node.value
+        if isinstance(node, ast.UnaryOp) and isinstance(node.op, ast.USub):
+            return -self.int_term(node.operand)
+        if isinstance(node, ast.BinOp) and isinstance(node.op, (ast.Add, ast.Sub, ast.Mult)):
+            a, b = self.int_term(node.left), self.int_term(node.right)
+            return a + b if isinstance(node.op, ast.Add) else a - b if isinstance(node.op, ast.Sub) else a * b
+        if isinstance(node, ast.Call) and isinstance(node.func, ast.Attribute) and self.is_oracle(node.func.value) and not node.keywords:
+            if node.func.attr == "level" and len(node.args) == 1:
+                return self.m.level(self.term(node.args[0]))
+            if node.func.attr == "distance" and len(node.args) == 2:
+                a, b = self.term(node.args[0]), self.term(node.args[1])
+                if not self.m.comparable(a, b):
+                    raise Undefined("distance between incomparable species")
+                return self.m.distance(a, b)
+        if isinstance(node, ast.Name):
+            found = self.resolve_name(node)
+            if found is not None:
+                return self.int_term(found)
+        raise AnalysisError(f"relational model: `{short(node)}` is not a recognised integer term")
+
+    def is_int_term(self, node: ast.AST) -> bool:
+        try:
+            self.int_term(node)
+            return True
+        except Undefined:
+            return True
+        except AnalysisError:
+            return False
+
     # -- predicates --------------------------------------------------------
     def truth(self, node: ast.AST) -> bool:
         if self.pred is not None:
@@ -180,8 +215,13 @@ class RelEval:
         if isinstance(node, ast.Compare) and len(node.ops) == 1:
             op = node.ops[0]
             if isinstance(op, (ast.Eq, ast.NotEq, ast.Is, ast.IsNot)):
+                if self.is_int_term(node.left) and self.is_int_term(node.comparators[0]):
+                    return (self.int_term(node.left) == self.int_term(node.comparators[0])) == isinstance(op, (ast.Eq, ast.Is))
                 a, b = self.term(node.left), self.term(node.comparators[0])
                 return (a == b) == isinstance(op, (ast.Eq, ast.Is))
+            if isinstance(op, (ast.Lt, ast.LtE, ast.Gt, ast.GtE)):
+                a, b = self.int_term(node.left), self.int_term(node.comparators[0])
+                return a < b if isinstance(op, ast.Lt) else a <= b if isinstance(op, ast.LtE) else a > b if isinstance(op, ast.Gt) else a >= b
             if isinstance(op, (ast.In, ast.NotIn)):
                 # x in y.traverse() / y.iter_descendants() / y.children
                 cont = node.comparators[0]
@@ -265,6 +305,15 @@ class FnEval(RelEval):
                 return self.term(found)
             finally:
                 self._depth -= 1
+        return None
+
+    def resolve_name(self, node: ast.Name) -> Optional[ast.AST]:
+        if hasattr(node, "lineno"):
+            from .flow import Opaque, reaching
+
+            found = reaching(self.fn, node.id, node)
+            if found is not None and not isinstance(found, Opaque):
+                return found
         return None
 
     def is_oracle(self, node: ast.AST) -> bool:
